@@ -5,10 +5,10 @@ import re
 import subprocess
 import time
 
-from gen import Unit, VERIF, Line
+from gen import Unit, VERIF, Line, BUILD as _BUILD
 from rsrc import mask, match_brace
 
-BUILD = os.path.join(VERIF, 'build')
+BUILD = _BUILD
 
 SEMANTIC = [
     (r'postcondition not satisfied', 'ensures'),
